@@ -48,6 +48,7 @@ def _setup(name, steps=3):
 
 def _enc(fn, args, vs, stub):
     from .c01 import named_kernels, KERNELS
+    zoo.refresh()
     if vs == "jaxley.stone":
         with named_kernels():
             return interp.encode(fn, args, stubs={"spsolve": stub}, kernels=KERNELS, return_interp=True)
